@@ -262,7 +262,7 @@ def run(c):
         return [p.x, p.y, p.z, p.vx, p.vy, p.vz, p.m]
 
     thorough = c.thorough
-    NS = 6000 if thorough else 1200
+    NS = 20000 if thorough else 1200
     searchfail = []   # (key, what, replay)
 
     def fail(key, what, replay):
@@ -717,7 +717,7 @@ def run(c):
     fe = front_ends(c, rebound, clib, P, rng, add, fail, c_err_by_msg, thorough, track)
 
     # ---------------------------------------------------------------- element round trips through the Python constructor
-    roundtrips(c, rebound, clib, P, rng, fail, track, thorough, check_reader, rand_inc, rand_angle)
+    roundtrips(c, rebound, clib, P, rng, fail, track, thorough, check_reader, rand_inc, rand_angle, add)
 
     # ---------------------------------------------------------------- asymptote boundary e cos f == -1
     nb = 0
@@ -845,7 +845,7 @@ def run(c):
                         sv = max([abs(v) for v in ev[3:6] if math.isfinite(v)] + [1e-300])
                         scales = [sp] * 3 + [sv] * 3 + [abs(ev[6]) or 1.0]
                     else:
-                        scales = [max(abs(a), abs(b), 1e-300) if kind in ("fmod", "kpal") else max(abs(a), abs(b), 1.0) for a, b in zip(gv, ev)]
+                        scales = [max(abs(a), abs(b), 1e-300) if kind == "fmod" else max(abs(a), abs(b), 1.0) for a, b in zip(gv, ev)]
                     # harmless re-association must not fire, a wrong sign / constant / branch must
                     tol = 1e-12 if kind in ("fmod", "mod2pi", "fo", "e2f") else 1e-9
                     for a, b, ta, tb, sc in zip(gv, ev, gt, e, scales):
@@ -1117,7 +1117,7 @@ def front_ends(c, rebound, clib, P, rng, add, fail, c_err_by_msg, thorough, trac
         one(pres, True, "class")
         stats["classes"] += 1
     # random fills: sparse random patterns (dense ones are almost always rejected at the first test)
-    nr = 20000 if thorough else 4000
+    nr = 60000 if thorough else 4000
     for i in range(nr):
         pres = dict((k, False) for k in ARGS)
         pres["sim"] = rng.chance(0.9)
@@ -1145,10 +1145,10 @@ def front_ends(c, rebound, clib, P, rng, add, fail, c_err_by_msg, thorough, trac
     return stats
 
 
-def roundtrips(c, rebound, clib, P, rng, fail, track, thorough, check_reader, rand_inc, rand_angle):
+def roundtrips(c, rebound, clib, P, rng, fail, track, thorough, check_reader, rand_inc, rand_angle, add):
     """elements -> sim.add -> particle.orbit() -> elements, every anomaly / longitude, a or P,
     omega or pomega, bound and unbound, through the *Python* objects."""
-    n = 12000 if thorough else 2500
+    n = 40000 if thorough else 2500
     hist = {}
     for i in range(n):
         sim = rebound.Simulation()
@@ -1208,7 +1208,13 @@ def roundtrips(c, rebound, clib, P, rng, fail, track, thorough, check_reader, ra
         simc.G, simc.t = sim.G, sim.t
         simc.add(m=sim.particles[0].m)
         names = list(kw)
+        com = clib.reb_simulation_com(ctypes.byref(simc))
         clib.reb_simulation_add_fmt(ctypes.byref(simc), ",".join(names).encode(), *[D(kw[n_]) for n_ in names])
+        if simc.N == 2:
+            q_ = simc.particles[1]
+            add("fmt %s %s %s %s" % (d2h(simc.G), d2h(simc.t), " ".join(d2h(x) for x in [com.x, com.y, com.z, com.vx, com.vy, com.vz, com.m]),
+                                     " ".join("%s=%s" % (n_, d2h(kw[n_])) for n_ in names)),
+                [d2h(x) for x in [q_.x, q_.y, q_.z, q_.vx, q_.vy, q_.vz, q_.m]], "fmt", rep)
         cerr = None
         try:
             simc.process_messages()
